@@ -248,12 +248,19 @@ fn ring_thread(ring_cell: &Arc<Mutex<Option<a10::Ring>>>, ctx: &Arc<Mutex<Ctx>>,
             return;
         }
         let mut ring = ring_cell.lock().unwrap().take().unwrap();
-        for _ in 0..polls {
-            ctx.lock().unwrap().in_ring_poll = true;
-            let _ = ring.poll(Some(Duration::ZERO));
-            ctx.lock().unwrap().in_ring_poll = false;
-        }
+        // A panic inside `Ring::poll` (e.g. the deadlock detector: a mutex inside freed memory) must
+        // not drop the ring while unwinding (a second panic would abort the process): put it back.
+        let res = std::panic::catch_unwind(std::panic::AssertUnwindSafe(|| {
+            for _ in 0..polls {
+                ctx.lock().unwrap().in_ring_poll = true;
+                let _ = ring.poll(Some(Duration::ZERO));
+                ctx.lock().unwrap().in_ring_poll = false;
+            }
+        }));
         *ring_cell.lock().unwrap() = Some(ring);
+        if let Err(p) = res {
+            std::panic::resume_unwind(p);
+        }
     })
 }
 
@@ -338,7 +345,7 @@ fn do_poll(ctx: &Arc<Mutex<Ctx>>, t: usize, i: usize, fresh: bool) {
         (f, w, waker)
     };
     // 10 pending, 11 ready with a value, 12 error, 13 end of the stream
-    let (code, val, afd): (i128, i128, Option<a10::AsyncFd>) = match &mut f {
+    let polled = std::panic::catch_unwind(std::panic::AssertUnwindSafe(|| match &mut f {
         Fut::Res(f) => match poll_once(f.as_mut(), &waker) {
             Poll::Pending => (10, 0, None),
             Poll::Ready(Ok(n)) => (11, n as i128, None),
@@ -355,6 +362,18 @@ fn do_poll(ctx: &Arc<Mutex<Ctx>>, t: usize, i: usize, fresh: bool) {
                 }
                 Poll::Ready(Some(Err(e))) => (12, -(e.raw_os_error().unwrap_or(99_999) as i128), None),
             }
+        }
+    }));
+    let (code, val, afd): (i128, i128, Option<a10::AsyncFd>) = match polled {
+        Ok(x) => x,
+        Err(p) => {
+            // The state is unknown after a panic: leak the future (dropping it could panic again).
+            std::mem::forget(f);
+            let mut c = ctx.lock().unwrap();
+            c.ev.push(14);
+            c.fail(format!("polling operation {i} panicked"));
+            drop(c);
+            std::panic::resume_unwind(p);
         }
     };
     drop(waker);
@@ -863,6 +882,9 @@ pub fn one_case(r: &mut Rng, silent: &Arc<Mutex<Option<String>>>, debug: bool) -
             let _ = write!(events, "K {i}%nat");
             let _ = write!(js, "\"K{i}\"");
         } else {
+            // (a use after free in the code under test can scribble over the execution log: keep the
+            // term small enough for the model to evaluate; it will disagree anyway)
+            let t = (*t).min(99);
             let _ = write!(events, "T {t}%nat");
             let _ = write!(js, "\"T{t}@{p}\"");
         }
